@@ -12,6 +12,7 @@ From Fnd Require Import Base.Prelude Model.Auth Proofs.AuthProofs.
 Theorem C01_auth_sound : forall i o, auth i = Ok o ->
   exists n ktypes, a_acl i = AclOk (r_addr o) false false n ktypes /\
     nth 1 (a_args i) [] = a_cc i /\ nth 2 (a_args i) [] = a_ch i /\
+    (forall r, a_routed i = Some r -> nth 1 (a_args i) [] = r) /\
     (1 <= n_signers i)%nat /\
     (required n (n_signers i) <= count_genuine (the_kis i) (sig_args i) (a_sigs i) (the_msg i))%nat /\
     (1 <= count_genuine (the_kis i) (sig_args i) (a_sigs i) (the_msg i))%nat.
@@ -77,7 +78,7 @@ Example C01_example :
   let base := [[]; cc; cc; [97]%N; [49; 55]%N; k1; k2; k3] in
   let msg := fn ++ concat base in
   let tbl := [(k1, KI 1 0 false); (k2, KI 2 0 false); (k3, KI 3 0 false)] in
-  let mk sigargs sigs := AuthIn 2 fn (base ++ sigargs) cc cc (AclOk 9 false false 2 [0; 0; 0]%N) tbl sigs in
+  let mk sigargs sigs := AuthIn 2 fn (base ++ sigargs) cc cc (AclOk 9 false false 2 [0; 0; 0]%N) tbl sigs (Some cc) in
   (match auth (mk [[115]%N; []; [115]%N] [SigBy 1 0 msg; SigJunk; SigBy 3 0 msg]) with Ok o => Some (r_addr o) | Err _ => None end,
    match auth (mk [[115]%N; []; []] [SigBy 1 0 msg; SigJunk; SigJunk]) with Ok _ => None | Err e => Some e end)
   = (Some 9%N, Some EBadSig).
